@@ -156,6 +156,8 @@ def touches_storage(pdb, n):
             g = callee_generic(x)
             if g in CLONE_FNS or p in LEN_IMPLS or g in LEN_IMPLS:
                 continue
+            if str(p or g or "") in ("std::vec::Vec<T, A>::is_empty", "[T]::is_empty", "std::vec::Vec<T>::is_empty"):
+                continue          # is_empty() is len() == 0
             fn = pdb.fn(p) if p else None
             if fn is not None and is_simple_fn(pdb, fn):
                 continue
@@ -2009,6 +2011,23 @@ def armed_bounds(rep, pdb, fn, key, extra_facts=(), usize_terms=(), eqmap=None, 
 def _nonneg_syntactic(t):
     c, atoms = lin_parts(t)
     return c >= 0 and all(k >= 0 for k in atoms.values())
+
+
+def self_adt(fn):
+    """base ADT path of the impl's self type (`&banded::Banded<T>` -> `banded::Banded`), wherever the impl is written"""
+    t = str(fn.get("impl_self") or "").strip()
+    while t.startswith("&"):
+        t = t[1:].strip()
+        if t.startswith("mut "):
+            t = t[4:].strip()
+    return t.split("<", 1)[0]
+
+
+def involves_adt(fn, adt):
+    """the impl is for `adt` (by value or reference) or one of the trait's type arguments is (e.g. `impl Mul<Matrix<f64>> for f64`)"""
+    if self_adt(fn) == adt:
+        return True
+    return any(str(a).lstrip("&").strip().startswith(adt + "<") or str(a).lstrip("&").strip() == adt for a in fn.get("impl_trait_args", []) or [])
 
 
 # ---------------------------------------------------------------- early returns must not skip required work
